@@ -24,7 +24,7 @@ RULE = (
     "every accepting backend compared with the parts simulated alone, sibling/cell permutations; distinct = assembled module descriptions "
     "whose simulation moves the voltages"
 )
-REQUIRED_COVER = ["absent_channel_stays_absent", "shared_param_name_different_values", "one_branch_cell_eq_branch", "one_comp_branch_eq_comp",
+REQUIRED_COVER = ["branch_relabelling", "absent_channel_stays_absent", "shared_param_name_different_values", "one_branch_cell_eq_branch", "one_comp_branch_eq_comp",
                   "network_eq_cells_alone", "sibling_permutation", "cell_permutation", "heterogeneous_ncomp",
                   "accepted:jaxley.stone", "accepted:jaxley.thomas", "accepted:jax.sparse"]
 ASSUMPTIONS = ["initial voltages stay below -20 mV (CaT time constant defect F16 and rate singularities are C04/C03's business)"]
@@ -224,6 +224,23 @@ def check_module(desc):
                     n0, n1, n2 = len(b[0]), len(b[1]), len(b[2])
                     perm = list(range(n0)) + list(range(n0 + n2, n0 + n2 + n1)) + list(range(n0, n0 + n2))
                     cmp("sibling_permutation_changes_result", other[:, perm], list(range(n0 + n1 + n2)), "sibling_permutation")
+        if kind == "cell" and desc.get("relabel"):
+            # the same tree listed in another admissible branch order (children of different siblings swapped in the list)
+            rl = desc["relabel"]
+            other_desc = {"kind": "cell", "parents": rl["parents"], "branches": [desc["branches"][i] for i in rl["order"]]}
+            other = _sim_ok(module_of(other_desc), backend, out["refusals"], "cell")
+            if other is not None:
+                sizes = [len(b) for b in desc["branches"]]
+                offs = np.concatenate([[0], np.cumsum(sizes)])
+                new_sizes = [sizes[i] for i in rl["order"]]
+                new_offs = np.concatenate([[0], np.cumsum(new_sizes)])
+                # column of original branch i in the relabelled module
+                perm = []
+                for i in range(len(sizes)):
+                    j = rl["order"].index(i)
+                    perm += list(range(new_offs[j], new_offs[j] + sizes[i]))
+                # stimulus sits on compartment 0 = first compartment of branch 0, which keeps its place
+                cmp("branch_relabelling_changes_result", other[:, perm], list(range(int(offs[-1]))), "branch_relabelling")
         if kind == "net":
             off = 0
             first = True
@@ -278,6 +295,14 @@ def explore(ctx):
         for p in scope.parent_vectors(n):
             for bs in itertools.product(BRANCH_ALPHABET, repeat=n):
                 descs.append({"kind": "cell", "parents": list(p), "branches": [list(b) for b in bs]})
+    # 5-branch trees listed in two admissible orders: [-1,0,0,1,2] vs [-1,0,0,2,1] (the children of siblings 1 and 2 swapped in the list)
+    B5 = [(1, 0), (2,), (3, 4), (0, 1), (4,)]
+    for rot in range(len(B5) if not quick else 2):
+        bs = B5[rot:] + B5[:rot]
+        descs.append({"kind": "cell", "parents": [-1, 0, 0, 1, 2], "branches": [list(b) for b in bs],
+                      "relabel": {"parents": [-1, 0, 0, 2, 1], "order": [0, 1, 2, 4, 3]}})
+        descs.append({"kind": "cell", "parents": [-1, 0, 1, 0, 3], "branches": [list(b) for b in bs],
+                      "relabel": {"parents": [-1, 0, 0, 2, 1], "order": [0, 3, 1, 2, 4]}})
     for r in ((2,) if quick else (2, 3)):
         for tup in itertools.product(range(len(CELL_CATALOGUE)), repeat=r):
             descs.append({"kind": "net", "cells": [dict(parents=CELL_CATALOGUE[i]["parents"], branches=[list(b) for b in CELL_CATALOGUE[i]["branches"]]) for i in tup]})
